@@ -5,6 +5,7 @@ import Xrl.Spec.DataInv
 import Xrl.Spec.Scatter
 import Xrl.Spec.Groups
 import Xrl.Spec.Auger
+import Xrl.Spec.Cascade
 /-!
 # `spec.*` operations of the driver: the executable specifications in the `Float` reading
 
@@ -52,6 +53,8 @@ def dispatchSpec (T : Tables Float) (fn : String) (a : Array String) : Option St
   | "spec.augerYield", 2 => some ("value " ++ fmtF (Spec.augerYield T (pI a[0]!) (pI a[1]!)))
   | "spec.netTotal", 2 => some ("value " ++ fmtF (Spec.netTotal T (pI a[0]!) (pI a[1]!)))
   | "spec.augerRate", 2 => some ("value " ++ fmtF (Spec.augerRate T (pI a[0]!) (pI a[1]!)))
+  | "spec.constAuger", 3 => some ("value " ++ fmtF (Spec.constAuger T (pI a[0]!) (pI a[1]!) (pI a[2]!)))
+  | "spec.constFull", 3 => some ("value " ++ fmtF (Spec.constFull T (pI a[0]!) (pI a[1]!) (pI a[2]!)))
   | "spec.shapeFailures", 0 => some ("shape " ++ toString ((Spec.shapeFailures T).map (fun p => p.1 ++ ":" ++ toString p.2)))
   | _, _ => none
 
